@@ -318,7 +318,11 @@ Do(k) == \/ k = "src" /\ \E r \in SrcReqs : SetBreakpoints(r)
          \/ k \in {"go", "go2", "go3", "go4"} /\ (ConfigurationDone \/ Continue)
          \/ k = "restart" /\ Restart
 Classes == {"src", "fn", "insn", "data", "go", "go2", "go3", "go4", "restart"}
+\* generation only: at most MaxPre requests before configurationDone, so that most of a history is
+\* spent with a live process (the exhaustive configurations have no such bound)
+MaxPre == 2
 ClassEnabled(k) == CASE k \in {"go", "go2", "go3", "go4"} -> ref.st # "exited"
+                     [] ref.st = "unload" /\ nreq >= MaxPre -> FALSE
                      \* generation binds restart of a live process only: after `exited` the adapter is
                      \* `terminated` (drops events) and restart-after-exit belongs to C11/C12
                      [] k = "restart" -> ref.st = "stopped" /\ RestartUnambiguous(ref)
